@@ -32,6 +32,8 @@ type World struct {
 	Axioms  []*spec.Axiom
 	Lemmas  []*spec.Lemma
 	SortDs  []*spec.SortDecl
+	Globals map[string][]*spec.Global // package path -> global invariants
+	FuncGlobals map[*ssa.Global]*ssa.Function // package-level func variables bound once to a function
 	PkgByPath map[string]*packages.Package
 	GlobalDecls []string
 	Regexes map[*ssa.Global]string // global *regexp.Regexp -> constant pattern
@@ -109,7 +111,8 @@ func Load(dir string, assumedDir string) (*World, error) {
 	prog.Build()
 	w := &World{Dir: dir, Fset: fset, Pkgs: pkgs, Prog: prog, Sorts: NewSorts(),
 		Funcs: map[string]*ssa.Function{}, Specs: map[string]*spec.FuncSpec{}, SpecFns: map[string]*spec.SpecFunc{},
-		PkgByPath: map[string]*packages.Package{}, Regexes: map[*ssa.Global]string{}, specFnDeclared: map[string]bool{}}
+		PkgByPath: map[string]*packages.Package{}, Regexes: map[*ssa.Global]string{}, specFnDeclared: map[string]bool{},
+		Globals: map[string][]*spec.Global{}, FuncGlobals: map[*ssa.Global]*ssa.Function{}}
 	packages.Visit(pkgs, nil, func(p *packages.Package) { w.PkgByPath[p.PkgPath] = p })
 	for _, p := range pkgs {
 		if strings.HasSuffix(p.PkgPath, "/internal/gontainer") {
@@ -222,6 +225,9 @@ func (w *World) addSpecFile(sf *spec.File) {
 	w.Axioms = append(w.Axioms, sf.Axioms...)
 	w.Lemmas = append(w.Lemmas, sf.Lemmas...)
 	w.SortDs = append(w.SortDs, sf.Sorts...)
+	for _, g := range sf.Globals {
+		w.Globals[g.Pkg] = append(w.Globals[g.Pkg], g)
+	}
 }
 
 // SpecFor finds the contract for a callee.
@@ -274,8 +280,11 @@ func IsRepo(f *ssa.Function) bool {
 
 // findRegexGlobals constant-folds package-level *regexp.Regexp variables to their pattern.
 func (w *World) findRegexGlobals() {
-	for _, p := range w.Pkgs {
-		sp := w.Prog.Package(p.Types)
+	var all []*ssa.Package
+	for _, sp := range w.Prog.AllPackages() {
+		all = append(all, sp)
+	}
+	for _, sp := range all {
 		if sp == nil {
 			continue
 		}
@@ -291,6 +300,10 @@ func (w *World) findRegexGlobals() {
 				}
 				g, ok := st.Addr.(*ssa.Global)
 				if !ok {
+					continue
+				}
+				if fn, isFn := st.Val.(*ssa.Function); isFn {
+					w.FuncGlobals[g] = fn
 					continue
 				}
 				if !isRegexpPtr(g.Type().(*types.Pointer).Elem()) {
